@@ -30,6 +30,22 @@
      vm_execute_slide {q,m}    q == 0: nothing; m == 0: sp -= q; else the top m slots are moved
                                down over the q slots below them
      vm_execute_ret            the top of the stack is the activation's result (SRet)
+   Stage 2 (print): the call `print(e)` is emitted as  LINE; MARK ret; e; GLOBAL_VEC 0;
+   ID_FUNC_ADDR <print>; CALL; ret: LABEL  where <print> is the stdlib function
+   `FUNC_DEF; ID_LOCAL 0 0; BUILD_IN print; RET` of the global prelude.  The model executes
+     vm_execute_mark           five header slots are pushed (saved pp, line, gp, fp, return ip);
+                               only the return ip is modelled (the others are restored by RET
+                               and never read by the code of the fragment), as a plain number in
+                               the slot; the operand is RELATIVE to the MARK's own address in the
+                               model (the real operand is absolute: the tie relocates it)
+     vm_execute_global_vec 0   push a fresh (empty vector) cell
+     vm_execute_id_func_addr   replace it by a fresh function cell whose payload is the code
+                               address of the function
+     vm_execute_call           ONLY for the function at `print_addr`: the callee's four
+                               instructions and its RET are ONE abstract step — the payload of
+                               the argument is printed, a fresh cell with that payload replaces
+                               header, argument and function value, ip = the saved return ip.
+                               Any other callee is SStuck (calls are stage 3).
    int arithmetic is 32-bit two's complement (`wrap32` of Src/Eval.v); the shift handlers use
    the count modulo 32 (x86 `shl/sar`; C leaves other counts undefined).
 
@@ -92,6 +108,10 @@ Definition vm_unop (o : opcode) (a : Z) : option Z :=
 Definition jump_target (ip : nat) (off : Z) : option nat :=
   let t := Z.of_nat ip + 1 + off in
   if t <? 0 then None else Some (Z.to_nat t).
+
+(* code address of the stdlib function `print` in the real module's prelude (the tie compares it
+   with the `F` line of the dump; it changes only if front/libmath.c's function list changes) *)
+Definition print_addr : Z := 215.
 
 Definition mkst (ip : nat) (stk : list nat) (h : list Z) (o : list Z) : vstate :=
   {| v_ip := ip; v_stk := stk; v_heap := h; v_out := o |}.
@@ -174,6 +194,26 @@ Definition step (prog : list rinstr) (s : vstate) : sres :=
     | BYTECODE_RET =>
         match stk with
         | a :: _ => SRet a s
+        | _ => SStuck end
+    | BYTECODE_MARK =>
+        let t := Z.of_nat (v_ip s) + r_w0 i in
+        if t <? 0 then SStuck
+        else SNext (mkst next (Z.to_nat t :: 0%nat :: 0%nat :: 0%nat :: 0%nat :: stk) h o)
+    | BYTECODE_GLOBAL_VEC =>
+        if r_w0 i =? 0 then SNext (mkst next (length h :: stk) (h ++ [0]) o) else SStuck
+    | BYTECODE_ID_FUNC_ADDR =>
+        match stk with
+        | _ :: rest => SNext (mkst next (length h :: rest) (h ++ [r_w0 i]) o)
+        | _ => SStuck end
+    | BYTECODE_CALL =>
+        match stk with
+        | f :: arg :: ret :: _ :: _ :: _ :: _ :: rest =>
+          match nth_error h f, nth_error h arg with
+          | Some fa, Some z =>
+            if fa =? print_addr
+            then SNext (mkst ret (length h :: rest) (h ++ [z]) (z :: o))
+            else SStuck
+          | _, _ => SStuck end
         | _ => SStuck end
     | _ => SStuck
     end
